@@ -127,15 +127,23 @@ def lens2_for(kind, sh):
     return sorted({0, min(s + 2, c) if c > s else s, c + 1})
 
 P = ['push']
+FULL, BINARY, GROWTH, GROWTH_B = 0xFFFF, 0x1FA, 0x01F, 0x11F
+MASKNAME = {FULL: 'whole public API',
+            BINARY: 'copy/move construction and assignment in both directions, swap, construct/destroy/push to B, pop, clear, detach, write through operator[] (push and resize of A alone are decided from the single-container shapes)',
+            GROWTH: 'push (all overloads), pop, resize (all overloads), clear, detach, write through operator[]',
+            GROWTH_B: 'push (all overloads), pop, resize (all overloads), clear, detach, write through operator[], construct/destroy/push to B'}
+MASKTAG = {FULL: '', BINARY: '.binary', GROWTH: '.growth', GROWTH_B: '.growthB'}
+# quick tier: (prefix, operation classes offered to the solver-chosen operation, also run with T=int?)
 QUICK_SCRIPTS = {
-    'vec': [[], P, P * 2, P * 3 + ['copyB'], P * 2 + ['ctorB', 'pushB'], P * 6, ['push', 'pop'], P * 2 + ['moveB'], ['resize3', 'pop']],
-    'sv2': [[], P, P * 2, P * 3, P + ['ctorB'] + ['pushB'] * 3, P * 6, P * 3 + ['pop', 'pop'], P * 2 + ['moveB'], P * 3 + ['copyB']],
-    'sv4': [[], P, P * 4, P * 5, P * 2 + ['ctorB'] + ['pushB'] * 5, P * 5 + ['pop'] * 3, P * 3 + ['moveB'], P * 5 + ['copyB']],
-    'dyn': [[], ['ctordefA'], ['ctornA0'], ['ctornA1'], ['ctornA3'], ['ctornA2', 'copyB'], ['ctornA2', 'ctornB3'], ['ctornA2', 'moveB']],
-    'stk': [[], P, P * 2, P * 3 + ['copyB'], P * 2 + ['ctorB', 'pushB'], P * 6, ['ctordefA', 'push'], P * 2 + ['moveB']],
+    'vec': [([], FULL, 1), (P, FULL, 0), (P * 2, FULL, 1), (P * 3 + ['copyB'], BINARY, 1), (P * 2 + ['ctorB', 'pushB'], BINARY, 0), (P * 6, GROWTH, 1), (['push', 'pop'], FULL, 0),
+            (P * 2 + ['moveB'], FULL, 0), (['resize3', 'pop'], FULL, 0), (P * 3 + ['ctorB', 'pushB', 'swap'], GROWTH_B, 0)],
+    'sv2': [([], FULL, 1), (P, FULL, 0), (P * 2, FULL, 1), (P * 3, FULL, 0), (P + ['ctorB'] + ['pushB'] * 3, BINARY, 1), (P * 6, GROWTH, 0), (P * 3 + ['pop', 'pop'], FULL, 0),
+            (P * 2 + ['moveB'], FULL, 0), (P * 3 + ['copyB'], BINARY, 1), (P * 3 + ['ctorB', 'pushB', 'swap'], GROWTH_B, 0)],
+    'sv4': [([], FULL, 1), (P, FULL, 0), (P * 4, FULL, 1), (P * 5, FULL, 0), (P * 2 + ['ctorB'] + ['pushB'] * 5, BINARY, 0), (P * 5 + ['pop'] * 3, FULL, 0),
+            (P * 3 + ['moveB'], FULL, 0), (P * 5 + ['copyB'], BINARY, 1), (P * 5 + ['ctorB', 'pushB', 'swap'], GROWTH_B, 0)],
+    'dyn': [(t, FULL, 1) for t in ([], ['ctordefA'], ['ctornA0'], ['ctornA1'], ['ctornA3'], ['ctornA2', 'copyB'], ['ctornA2', 'ctornB3'], ['ctornA2', 'moveB'], ['ctornA2', 'ctornB3', 'swap'])],
+    'stk': [(t, FULL, 1) for t in ([], P, P * 2, P * 3 + ['copyB'], P * 2 + ['ctorB', 'pushB'], P * 6, ['ctordefA', 'push'], P * 2 + ['moveB'])],
 }
-QUICK_INT = {'vec': [[], P * 2, P * 3 + ['copyB'], P * 6], 'sv2': [[], P * 2, P * 3 + ['copyB'], P + ['ctorB'] + ['pushB'] * 3], 'sv4': [[], P * 4, P * 5 + ['copyB']],
-             'dyn': QUICK_SCRIPTS['dyn'], 'stk': QUICK_SCRIPTS['stk']}
 ALPHABET = {
     'vec': ['push', 'pop', 'resize0', 'resize1', 'resize3', 'clear', 'copyB', 'moveB', 'swap', 'ctorB', 'dtorB', 'pushB', 'assignAB', 'massignAB'],
     'sv2': ['push', 'pop', 'resize0', 'resize1', 'resize3', 'copyB', 'moveB', 'swap', 'ctorB', 'dtorB', 'pushB'],
@@ -168,9 +176,7 @@ def tokname(toks):
         out.append(toks[i] + ('x%d' % (j - i) if j - i > 1 else '')); i = j
     return '-'.join(out)
 
-BINARY = 0x1FA               # M_POP | M_CLEAR | M_SET | M_COPY | M_MOVE | M_SWAP | M_B
-GROWTH_ONLY = 0x01F          # M_PUSH | M_POP | M_RESIZE | M_CLEAR | M_SET  (harness/c13_seq.c)
-def seq_q(c, trk, toks, K, tier, opmask=None, tag=''):
+def seq_q(c, trk, toks, K, tier, opmask=FULL, tag=''):
     sh, codes = run_script(c, toks)
     assert sh is not None, (c, toks)
     smax = max(sh.A[0], sh.B[0] if sh.B else 0)
@@ -180,46 +186,50 @@ def seq_q(c, trk, toks, K, tier, opmask=None, tag=''):
     maxn = max([maxn] + lens + lens2)
     nblk = len(codes) + K + 2
     u = uname(c, trk)
-    if opmask is None and smax >= 6 and c != 'stk': opmask = GROWTH_ONLY; tag = tag + '.growth'      # large shapes: the operations whose behaviour depends on the threshold
-    elif opmask is None and tier == 'quick' and sh.B is not None and c in ('vec', 'sv2', 'sv4'): opmask = BINARY; tag = tag + '.binary'   # quick: with B alive, the operations that involve both (thorough: all)
+    tag = MASKTAG.get(opmask, '.m%x' % opmask) + tag
     name = '%s.%s.%s.k%d%s' % (c, TN[trk], tokname(toks), K, tag)
     defs = {'C13_UNIT': u, 'C13_CONT': CONTS[c], 'C13_TRK': trk, 'K': K, 'SCRIPT': ''.join('%d,' % x for x in codes), 'NSCRIPT': len(codes),
             'LENS': ','.join(str(x) for x in lens), 'NLENS': len(lens),
             'LENS2': ','.join(str(x) for x in lens2), 'NLENS2': len(lens2), 'MAXN': maxn, 'VP_MAXBLK': nblk}
-    if opmask is not None: defs['OPMASK0'] = '0x%xu' % opmask
-    defs['EXPECT_OPS'] = '0x%xu' % expected_ops(c, sh, opmask if opmask is not None else 0xFFFF)
+    if opmask != FULL: defs['OPMASK0'] = '0x%xu' % opmask
+    defs['EXPECT_OPS'] = '0x%xu' % expected_ops(c, sh, opmask)
     shape = 'A: size %d capacity %d' % sh.A + ('; B: size %d capacity %d' % sh.B if sh.B else '; B: not constructed')
     return Q(name, u, 'c13_seq.c', 'harness', defs=defs, unwind=max(2 * maxn + 3, nblk + 2, 6), unwind_fn=[(r'^ir2c_mem', 8 * maxn + 10)], extra=['--object-bits', '12', '--slice-formula'], inline_witness=True,
              timeout=900 if K == 1 else 2400, mem_gb=5 if K == 1 else 8,
              bounds={'container': CONT_NAME[c], 'T': 'tracked (observable copy/move, lifetime registry)' if trk else 'int', 'allocator': 'vp_allocator (exact-size blocks, block registry)',
                      'concrete prefix from the constructor': ' '.join(toks) or '(none)', 'shape before the symbolic part (model)': shape,
-                     'solver-chosen operations after the prefix': K, 'operation classes offered': 'push/pop/resize/clear/write through operator[] (growth-related)' if opmask == GROWTH_ONLY else 'copy/move construction and assignment in both directions, swap, construct/destroy/push to B, pop, clear, detach, write through operator[] (push and resize of A alone are decided from the single-container shapes)' if opmask == BINARY else 'whole public API', 'lengths offered to resize(n)/dyn_array(n)': lens, 'lengths offered to resize(n, value)': lens2, 'max elements per container': maxn,
+                     'solver-chosen operations after the prefix': K, 'operation classes offered to the %ssolver-chosen operation' % ('first ' if K > 1 else ''): MASKNAME.get(opmask, 'classes 0x%x of harness/c13_seq.c' % opmask),
+                     'lengths offered to resize(n)/dyn_array(n)': lens, 'lengths offered to resize(n, value)': lens2, 'max elements per container': maxn,
                      'element values / indices': 'arbitrary 32-bit / every valid index'},
              what='%s<%s>: from the shape reached by [%s], every sequence of %d operation(s) of the whole public API keeps every accessor equal to the reference sequence, '
                   'touches only owned storage, and after destruction nothing is alive or allocated' % (c, TN[trk], ' '.join(toks) or 'constructor', K))
 
+CLASSES = [M_PUSH, M_POP | M_CLEAR | M_SET, M_RESIZE, M_COPY, M_MOVE, M_SWAP | M_B | M_CTORN]
 def seq_queries(tier, trks=(0, 1)):
     qs = []
     for c in CONTS:
-        scripts = list(QUICK_SCRIPTS[c])
-        if tier == 'thorough':
-            smax = {'vec': 4, 'sv2': 4, 'sv4': 6, 'dyn': 3, 'stk': 4}[c]
-            for t in bfs_scripts(c, 4, smax, 60):
-                if t not in scripts: scripts.append(t)
-            scripts += [s for s in ({'vec': [P * 7, P * 14], 'sv2': [P * 7, P * 14], 'sv4': [P * 10, P * 11], 'stk': [P * 7, P * 14]}.get(c, [])) if s not in scripts]
         for trk in trks:
-            for toks in scripts:
-                # quick tier: T=int on the core shapes only (constructor, full, binary operations, large); T=tracked (a superset of the observations) on all
-                if tier == 'quick' and trk == 0 and toks not in QUICK_INT[c]: continue
-                qs.append(seq_q(c, trk, toks, 1, tier))
+            done = set()
+            for (toks, mask, with_int) in QUICK_SCRIPTS[c]:
+                if tier == 'quick' and trk == 0 and not with_int: continue      # quick: T=int on the core shapes, T=tracked (a superset of the observations) on all
+                qs.append(seq_q(c, trk, toks, 1, tier, mask if tier == 'quick' else (GROWTH if len(toks) >= 6 and c != 'stk' else FULL))); done.add(tuple(toks))
             if tier == 'thorough':
-                for toks in QUICK_SCRIPTS[c][:4]:
-                    qs.append(seq_q(c, trk, toks, 2, tier))
+                smax = {'vec': 4, 'sv2': 4, 'sv4': 6, 'dyn': 3, 'stk': 4}[c]
+                extra = bfs_scripts(c, 4, smax, 60) + {'vec': [P * 7, P * 14], 'sv2': [P * 7, P * 14], 'sv4': [P * 10, P * 11], 'stk': [P * 7, P * 14]}.get(c, [])
+                for toks in extra:
+                    if tuple(toks) in done: continue
+                    done.add(tuple(toks)); qs.append(seq_q(c, trk, toks, 1, tier, GROWTH if len(toks) >= 6 and c != 'stk' else FULL))
+                # two solver-chosen operations: the first one restricted to one class per query (all classes covered), the second one from the whole API
+                for toks in ([], P * 2):
+                    sh, _ = run_script(c, toks)
+                    if sh is None: continue
+                    for cls in CLASSES:
+                        if expected_ops(c, sh, cls): qs.append(seq_q(c, trk, toks, 2, tier, cls))
     return qs
 
 def list_queries(tier, trks=(0, 1)):
     qs = []
-    cfgs = [(0, 4), (3, 3)] if tier == 'quick' else [(0, 5), (3, 4), (6, 3)]
+    cfgs = [(0, 3), (3, 2)] if tier == 'quick' else [(0, 5), (3, 4), (6, 3)]
     for trk in trks:
         u = 'c13_list_%s' % TN[trk]
         for (p, k) in cfgs:
@@ -237,7 +247,7 @@ def ilist_queries(tier):
     for m in range(0, nn):
         for m2 in ((0, 2) if tier == 'quick' else (0, 1, 3)):
             if m + m2 > nn - 1: continue
-            perm = m + m2 <= (3 if tier == 'quick' else 4)
+            perm = m + m2 <= (2 if tier == 'quick' else 4)
             defs = {'M': m, 'M2': m2, 'NN': nn}
             if perm: defs['PERM'] = 1
             qs.append(Q('ilist.m%d.s%d%s' % (m, m2, '.perm' if perm else ''), 'c13_ilist', 'c13_ilist.c', 'harness', defs=defs, unwind=nn + 2, inline_witness=True, timeout=900, mem_gb=4,
